@@ -213,6 +213,15 @@ func refDecode(argT reflect.Type, params []byte, strict, allowArray bool) (val r
 		dec.DisallowUnknownFields()
 	}
 	if err := dec.Decode(target.Interface()); err != nil {
+		if _, isStruct := posNames(argT); strict && !isStruct && !hasStrictMethod(argT) {
+			// SetStrict is documented to have "no effect for non-struct arguments":
+			// if only the strictness makes the difference (an unknown key nested in
+			// a slice or map of structs), either outcome is accepted.
+			loose := reflect.New(base)
+			if json.Unmarshal(data, loose.Interface()) == nil {
+				return val, false, "SetStrict on a non-struct argument"
+			}
+		}
 		return val, false, ""
 	}
 	return finish(), true, ""
